@@ -115,14 +115,27 @@ func c35RefSet(refs []*plumbing.Reference) string {
 	return strings.Join(out, " ")
 }
 
+// c35Trailer follows every self-delimiting message in the decoder's input:
+// the decoder must stop exactly in front of it (in the protocol the next
+// message or the pack follows on the same stream).
+var c35Trailer = []byte("0009\x01PACK0000")
+
 // rt runs one round trip. enc encodes the value, dec decodes into a fresh
 // value and returns its canonical form; want is the canonical form of the
-// input. kindOf names the aspect that differs (to group failures by defect).
+// input. The decoder reads the encoding followed by c35Trailer, once from a
+// source that delivers everything at once and once byte by byte, and must
+// leave exactly the trailer unread. Failures are grouped by (message, kind of
+// difference, normalised error text) so that one defect cannot hide another.
 func (e *c35Env) rt(msg string, rank int, descr func() string, enc func(w io.Writer) error, dec func(r io.Reader) (string, error), want string, class string) []byte {
-	e.c.Eval()
+	return e.rtx(msg, rank, descr, enc, dec, want, class, true)
+}
+
+// rtx is rt for messages that end with the end of the stream (selfDelim
+// false): no trailer is appended.
+func (e *c35Env) rtx(msg string, rank int, descr func() string, enc func(w io.Writer) error, dec func(r io.Reader) (string, error), want string, class string, selfDelim bool) []byte {
 	var buf bytes.Buffer
-	fail := func(kind, what string) {
-		e.fails.add("roundtrip/"+msg+"/"+kind, [3]int{rank, 0, 0}, func() (string, string, any) {
+	fail := func(kind, sub, what string) {
+		e.fails.add("roundtrip/"+msg+"/"+kind+"/"+sub, [3]int{rank, 0, 0}, func() (string, string, any) {
 			d := descr()
 			return fmt.Sprintf("%s round-trip: %s: %s", msg, kind, d), what + " [value " + d + "]", map[string]any{"message": msg, "value": d, "encoded": dShort(buf.Bytes()), "want": want}
 		})
@@ -137,41 +150,61 @@ func (e *c35Env) rt(msg string, rank int, descr func() string, enc func(w io.Wri
 		eerr = enc(&buf)
 	}()
 	if eerr != nil {
-		fail("encode error", "Encode refuses a well-formed value: "+eerr.Error())
+		e.c.Eval()
+		fail("encode error", c53Outcome(eerr), "Encode refuses a well-formed value: "+eerr.Error())
 		e.cls.add(e.c, msg+"|"+class+"|encode-error")
 		return nil
 	}
-	var got string
-	var derr error
-	func() {
-		defer func() {
-			if r := recover(); r != nil {
-				derr = fmt.Errorf("panic: %v", r)
-			}
+	encoded := append([]byte{}, buf.Bytes()...)
+	input := encoded
+	if selfDelim {
+		input = append(append([]byte{}, encoded...), c35Trailer...)
+	}
+	outcome := "ok"
+	for _, k := range []dChunking{{}, {max: 1}} {
+		e.c.Eval()
+		var got string
+		var derr error
+		src := newChunkReader(input, k)
+		func() {
+			defer func() {
+				if r := recover(); r != nil {
+					derr = fmt.Errorf("panic: %v", r)
+				}
+			}()
+			got, derr = dec(src)
 		}()
-		got, derr = dec(bytes.NewReader(buf.Bytes()))
-	}()
-	if derr != nil {
-		fail("decode error", "Decode rejects go-git's own encoding: "+derr.Error())
-		e.cls.add(e.c, msg+"|"+class+"|decode-error")
-		return buf.Bytes()
-	}
-	if got != want {
-		// name the first differing field ("k=" prefix up to the difference)
-		field := "value"
-		gw, ww := strings.Split(got, " | "), strings.Split(want, " | ")
-		for i := range ww {
-			if i >= len(gw) || gw[i] != ww[i] {
-				field = strings.SplitN(ww[i], ":", 2)[0]
-				break
-			}
+		how := ""
+		if k.max > 0 {
+			how = " (source delivering one byte per Read)"
 		}
-		fail("differs in "+field, fmt.Sprintf("decoded value differs: got {%s} want {%s}", got, want))
-		e.cls.add(e.c, msg+"|"+class+"|differs")
-		return buf.Bytes()
+		if derr != nil {
+			fail("decode error", c53Outcome(derr)+how, "Decode rejects go-git's own encoding"+how+": "+derr.Error())
+			outcome = "decode-error"
+			break
+		}
+		if got != want {
+			// name the first differing field ("k=" prefix up to the difference)
+			field := "value"
+			gw, ww := strings.Split(got, " | "), strings.Split(want, " | ")
+			for i := range ww {
+				if i >= len(gw) || gw[i] != ww[i] {
+					field = strings.SplitN(ww[i], ":", 2)[0]
+					break
+				}
+			}
+			fail("differs in "+field, how, fmt.Sprintf("decoded value differs%s: got {%s} want {%s}", how, got, want))
+			outcome = "differs"
+			break
+		}
+		if selfDelim && !bytes.Equal(input[src.pos:], c35Trailer) {
+			fail("reads past the end of the message", how, fmt.Sprintf("Decode%s leaves %s unread where %s follows the message", how, dShort(input[src.pos:]), dShort(c35Trailer)))
+			outcome = "overread"
+			break
+		}
 	}
-	e.cls.add(e.c, msg+"|"+class+"|ok")
-	return buf.Bytes()
+	e.cls.add(e.c, msg+"|"+class+"|"+outcome)
+	return encoded
 }
 
 // ---------------------------------------------------------------- AdvRefs
@@ -281,6 +314,11 @@ func runC35(c *fw.Ctx) {
 
 	c35RoundTrips(env)
 	env.fails.flush(c)
+	c.Extra("round_trip_part", map[string]any{"wall_s": float64(int(c.Elapsed().Seconds()*10)) / 10, "evaluations": c.NEvals()})
+	if os.Getenv("VERIF_C35_NOGIT") != "" { // development aid
+		c.Incomplete("VERIF_C35_NOGIT set: the git side was not run")
+		return
+	}
 	c35GitSide(env)
 	env.fails.flush(c)
 }
@@ -320,7 +358,7 @@ func c35RoundTrips(e *c35Env) {
 		shalSets := [][]plumbing.Hash{{}, {h[2]}, {h[2], h[1]}}
 		t0 := time.Unix(1700000000, 0).UTC()
 		depths := []packp.DepthRequest{{}, {Deepen: 1}, {Deepen: 3}, {DeepenSince: t0}, {DeepenNot: []string{"refs/heads/a"}}, {DeepenSince: t0, DeepenNot: []string{"refs/heads/a", "refs/tags/t"}}}
-		filters := []packp.Filter{"", packp.FilterBlobNone(), packp.FilterTreeDepth(1)}
+		filters := []packp.Filter{"", packp.FilterBlobNone(), packp.FilterTreeDepth(1), packp.FilterBlobLimit(1, packp.BlobLimitPrefixKibi), packp.FilterCombine(packp.FilterBlobNone(), packp.FilterTreeDepth(2))}
 		ulCanon := func(u *packp.UploadRequest) string {
 			since := int64(0)
 			if !u.Depth.DeepenSince.IsZero() {
@@ -397,13 +435,16 @@ func c35RoundTrips(e *c35Env) {
 			for _, a := range seq {
 				shape += fmt.Sprint(int(a.Status))
 			}
-			e.rt("ServerResponse", next(), func() string { return format + " " + want }, v.Encode, func(r io.Reader) (string, error) {
+			// a response ends with NAK or a status-less ACK; a run of "ACK id status"
+			// lines alone ends with the stream
+			selfDelim := len(seq) == 0 || seq[len(seq)-1].Status == 0
+			e.rtx("ServerResponse", next(), func() string { return format + " " + want }, v.Encode, func(r io.Reader) (string, error) {
 				var d packp.ServerResponse
 				if err := d.Decode(r); err != nil {
 					return "", err
 				}
 				return ackCanon(d.ACKs), nil
-			}, want, shape+" "+format)
+			}, want, shape+" "+format, selfDelim)
 		}
 
 		// ---- ShallowUpdate
@@ -515,7 +556,7 @@ func c35RoundTrips(e *c35Env) {
 	}
 
 	// ---- capability lists (v0/v1 string form and v2 pkt-line form)
-	capAlpha := []string{"multi_ack", "agent=x", "agent=git/2.39.5", "symref=HEAD:refs/heads/a", "symref=refs/b:refs/heads/c", "object-format=sha256", "side-band-64k", "fetch=shallow", "fetch=filter"}
+	capAlpha := []string{"multi_ack", "agent=x", "agent=git/2.39.5", "symref=HEAD:refs/heads/a", "symref=refs/b:refs/heads/c", "object-format=sha256", "side-band-64k", "fetch=shallow", "fetch=filter", "session-id=a=b=", "agent=git/2.39.5-(x86_64;%s)"}
 	for _, seq := range fw.Seqs(len(capAlpha), 3) {
 		var items []string
 		for _, i := range seq {
@@ -524,12 +565,30 @@ func c35RoundTrips(e *c35Env) {
 		l := c35Caps(items...)
 		want := "caps:" + c35CapsCanon(&l)
 		l1 := c35Caps(items...)
-		e.rt("capability.List/v0", next(), func() string { return fmt.Sprint(items) }, func(w io.Writer) error { _, err := w.Write(capability.EncodeList(&l1)); return err }, func(r io.Reader) (string, error) {
+		e.rtx("capability.List/v0", next(), func() string { return fmt.Sprint(items) }, func(w io.Writer) error { _, err := w.Write(capability.EncodeList(&l1)); return err }, func(r io.Reader) (string, error) {
 			b, _ := io.ReadAll(r)
 			var d capability.List
 			capability.DecodeList(b, &d)
 			return "caps:" + c35CapsCanon(&d), nil
-		}, want, fmt.Sprint(seq))
+		}, want, fmt.Sprint(seq), false)
+		l3 := c35Caps(items...)
+		e.rtx("capability.List/text", next(), func() string { return fmt.Sprint(items) }, func(w io.Writer) error {
+			b, err := l3.MarshalText()
+			if err == nil && string(b) != l3.String() {
+				err = fmt.Errorf("MarshalText %q differs from String %q", b, l3.String())
+			}
+			if err == nil {
+				_, err = w.Write(b)
+			}
+			return err
+		}, func(r io.Reader) (string, error) {
+			b, _ := io.ReadAll(r)
+			var d capability.List
+			if err := d.UnmarshalText(b); err != nil {
+				return "", err
+			}
+			return "caps:" + c35CapsCanon(&d), nil
+		}, want, fmt.Sprint(seq), false)
 		l2 := c35Caps(items...)
 		e.rt("capability.List/v2", next(), func() string { return fmt.Sprint(items) }, func(w io.Writer) error {
 			if err := packp.EncodeListV2(w, &l2); err != nil {
@@ -597,8 +656,9 @@ func c35RoundTrips(e *c35Env) {
 			since time.Time
 			not   []string
 		}
-		depths := []depth{{}, {n: 2}, {n: 1, rel: true}, {since: t0}, {not: []string{"refs/heads/a"}}}
-		for _, p := range fw.Product(2, 3, 2, 4, 2, len(depths), 2) {
+		depths := []depth{{}, {n: 2}, {n: 1, rel: true}, {since: t0}, {not: []string{"refs/heads/a"}}, {since: t0, not: []string{"refs/heads/a", "refs/tags/t"}}}
+		faFilters := []packp.Filter{"", packp.FilterBlobNone(), packp.FilterCombine(packp.FilterBlobLimit(0, packp.BlobLimitPrefixNone), packp.FilterTreeDepth(1))}
+		for _, p := range fw.Product(2, 3, 2, 4, 2, len(depths), len(faFilters)) {
 			mk := func() *packp.FetchArgs {
 				a := &packp.FetchArgs{Wants: [][]plumbing.Hash{{h[0]}, {h[1], h[0]}}[p[0]], Haves: [][]plumbing.Hash{nil, {h[2]}, {h[2], h[1]}}[p[1]], Done: p[2] == 1}
 				a.Wants = append([]plumbing.Hash{}, a.Wants...)
@@ -616,9 +676,7 @@ func c35RoundTrips(e *c35Env) {
 				}
 				d := depths[p[5]]
 				a.Deepen, a.DeepenRelative, a.DeepenSince, a.DeepenNot = d.n, d.rel, d.since, append([]string(nil), d.not...)
-				if p[6] == 1 {
-					a.Filter = packp.FilterBlobNone()
-				}
+				a.Filter = faFilters[p[6]]
 				return a
 			}
 			cr := &packp.CommandRequest{Command: "fetch", Capabilities: c35Caps("agent=x", "object-format="+format), Args: mk()}
@@ -657,6 +715,178 @@ func c35RoundTrips(e *c35Env) {
 				}
 				return "refs:" + c35RefSet(d.References), nil
 			}, want, fmt.Sprintf("%d %s", i, format))
+		}
+	}
+
+	// ---- v2 command requests without arguments: the empty request (a lone
+	// flush-pkt), and commands whose argument section is empty (Args nil)
+	for _, cmd := range []string{"", "ls-refs", "fetch", "object-info"} {
+		for _, capItems := range [][]string{nil, {"agent=go-git/6.x", "object-format=sha1"}} {
+			if cmd == "" && capItems != nil {
+				continue // the empty request carries nothing
+			}
+			cr := &packp.CommandRequest{Command: cmd, Capabilities: c35Caps(capItems...)}
+			capl := c35Caps(capItems...)
+			want := "command:" + cmd + " | caps:" + c35CapsCanon(&capl)
+			e.rt("CommandRequest/no-args", next(), func() string { return want }, cr.Encode, func(r io.Reader) (string, error) {
+				d := &packp.CommandRequest{Command: "stale", Capabilities: c35Caps("stale")}
+				if err := d.Decode(r); err != nil {
+					return "", err
+				}
+				return "command:" + d.Command + " | caps:" + c35CapsCanon(&d.Capabilities), nil
+			}, want, fmt.Sprintf("%q c%d", cmd, len(capItems)))
+		}
+	}
+
+	// ---- ls-refs with many ref-prefix arguments: every count up to 40 and the
+	// counts around the decoder's thresholds (git and go-git drop the list at 65536)
+	var prefCounts []int
+	for n := 4; n <= 40; n++ {
+		prefCounts = append(prefCounts, n)
+	}
+	prefCounts = append(prefCounts, 255, 256, 257, 1023, 1024, 1025, 4095, 4096, 4097, 32767, 32768, 65534, 65535)
+	e.c.Bound("ls_refs_ref_prefix_counts", "0..2 in the product above; 4..40, 255..257, 1023..1025, 4095..4097, 32767, 32768, 65534, 65535 (one below the documented cut-off)")
+	for _, n := range prefCounts {
+		mkArgs := func() *packp.LsRefsArgs {
+			a := &packp.LsRefsArgs{Symrefs: true}
+			for i := 0; i < n; i++ {
+				a.RefPrefixes = append(a.RefPrefixes, fmt.Sprintf("refs/heads/b%05d/", i))
+			}
+			return a
+		}
+		cr := &packp.CommandRequest{Command: "ls-refs", Capabilities: c35Caps("agent=x"), Args: mkArgs()}
+		want := fmt.Sprintf("command:ls-refs | %s", lsCanon(mkArgs()))
+		e.rt("CommandRequest/ls-refs", next(), func() string { return fmt.Sprintf("ls-refs with %d ref-prefix arguments", n) }, cr.Encode, func(r io.Reader) (string, error) {
+			d := &packp.CommandRequest{Args: &packp.LsRefsArgs{}}
+			if err := d.Decode(r); err != nil {
+				return "", err
+			}
+			return "command:" + d.Command + " | " + lsCanon(d.Args.(*packp.LsRefsArgs)), nil
+		}, want, fmt.Sprintf("prefixes=%d", n))
+	}
+
+	// ---- v2 fetch response (the v2 form of server response + shallow update):
+	// every combination of its sections
+	for _, format := range []string{"sha1", "sha256"} {
+		h := c35Hashes(format)
+		foCanon := func(o *packp.FetchOutput) string {
+			var sb strings.Builder
+			if o.Acknowledgments != nil {
+				fmt.Fprintf(&sb, "acks:%s/ready=%v", c35HashList(o.Acknowledgments.ACKs), o.Acknowledgments.Ready)
+			} else {
+				sb.WriteString("acks:absent")
+			}
+			if o.ShallowInfo != nil {
+				fmt.Fprintf(&sb, " | shallow-info:%s/%s", c35HashList(o.ShallowInfo.Shallows), c35HashList(o.ShallowInfo.Unshallows))
+			} else {
+				sb.WriteString(" | shallow-info:absent")
+			}
+			if o.WantedRefs != nil {
+				var rs []string
+				for _, r := range o.WantedRefs.Refs {
+					rs = append(rs, r.Name().String()+"="+r.Hash().String())
+				}
+				fmt.Fprintf(&sb, " | wanted-refs:%v", rs)
+			} else {
+				sb.WriteString(" | wanted-refs:absent")
+			}
+			if o.PackfileURIs != nil {
+				fmt.Fprintf(&sb, " | packfile-uris:%q", o.PackfileURIs.URIs)
+			} else {
+				sb.WriteString(" | packfile-uris:absent")
+			}
+			fmt.Fprintf(&sb, " | packfile:%v", o.Packfile)
+			return sb.String()
+		}
+		ackSets := [][]plumbing.Hash{nil, {h[0]}, {h[1], h[0]}, {h[0], h[1], h[2]}}
+		shInfos := []*packp.ShallowInfo{nil, {}, {Shallows: []plumbing.Hash{h[1]}}, {Unshallows: []plumbing.Hash{h[2]}}, {Shallows: []plumbing.Hash{h[1], h[0]}, Unshallows: []plumbing.Hash{h[2]}}}
+		wanted := []*packp.WantedRefs{nil, {}, {Refs: []*plumbing.Reference{plumbing.NewHashReference("refs/heads/a", h[0])}}, {Refs: []*plumbing.Reference{plumbing.NewHashReference("refs/tags/t", h[1]), plumbing.NewHashReference("refs/heads/a", h[0])}}}
+		uris := []*packp.PackfileURIs{nil, {}, {URIs: []string{h[0].String() + " https://example.com/p-1.pack"}}, {URIs: []string{h[1].String() + " https://example.com/a%20b.pack", h[0].String() + " https://example.com/p-1.pack"}}}
+		type foCase struct {
+			mk    func() *packp.FetchOutput
+			class string
+		}
+		var foCases []foCase
+		for ai, as := range ackSets {
+			as := as
+			// a negotiation round: acknowledgments only, not ready, no packfile
+			foCases = append(foCases, foCase{func() *packp.FetchOutput {
+				return &packp.FetchOutput{Acknowledgments: &packp.Acknowledgments{ACKs: append([]plumbing.Hash(nil), as...)}}
+			}, fmt.Sprintf("round a%d", ai)})
+		}
+		for _, p := range fw.Product(len(ackSets)+1, len(shInfos), len(wanted), len(uris)) {
+			p := p
+			foCases = append(foCases, foCase{func() *packp.FetchOutput {
+				o := &packp.FetchOutput{Packfile: true}
+				if p[0] > 0 {
+					o.Acknowledgments = &packp.Acknowledgments{ACKs: append([]plumbing.Hash(nil), ackSets[p[0]-1]...), Ready: true}
+				}
+				if si := shInfos[p[1]]; si != nil {
+					o.ShallowInfo = &packp.ShallowInfo{Shallows: append([]plumbing.Hash(nil), si.Shallows...), Unshallows: append([]plumbing.Hash(nil), si.Unshallows...)}
+				}
+				if w := wanted[p[2]]; w != nil {
+					o.WantedRefs = &packp.WantedRefs{Refs: append([]*plumbing.Reference(nil), w.Refs...)}
+				}
+				if u := uris[p[3]]; u != nil {
+					o.PackfileURIs = &packp.PackfileURIs{URIs: append([]string(nil), u.URIs...)}
+				}
+				return o
+			}, fmt.Sprint("pack ", p)})
+		}
+		e.c.Bound("fetch_output_values_"+format, len(foCases))
+		for _, fc := range foCases {
+			v := fc.mk()
+			want := foCanon(fc.mk())
+			e.rt("FetchOutput", next(), func() string { return format + " " + want }, func(w io.Writer) error {
+				if err := v.Encode(w); err != nil {
+					return err
+				}
+				if !v.Packfile {
+					return nil // the negotiation round ends with the flush-pkt Encode wrote
+				}
+				return nil // the packfile (here: the trailer) follows the "packfile" header
+			}, func(r io.Reader) (string, error) {
+				var d packp.FetchOutput
+				if err := d.Decode(r); err != nil {
+					return "", err
+				}
+				return foCanon(&d), nil
+			}, want, fc.class+" "+format)
+		}
+
+		// ---- smart HTTP service announcement, dumb HTTP info/refs
+		for _, svc := range []string{"git-upload-pack", "git-receive-pack"} {
+			v := &packp.SmartReply{Service: svc}
+			e.rt("SmartReply", next(), func() string { return svc }, v.Encode, func(r io.Reader) (string, error) {
+				var d packp.SmartReply
+				if err := d.Decode(r); err != nil {
+					return "", err
+				}
+				return "service:" + d.Service, nil
+			}, "service:"+svc, svc+" "+format)
+		}
+		irSets := [][]*plumbing.Reference{
+			{},
+			{plumbing.NewHashReference("refs/heads/a", h[0])},
+			{plumbing.NewHashReference("refs/heads/a", h[0]), plumbing.NewHashReference("refs/tags/t", h[1]), plumbing.NewHashReference("refs/tags/t^{}", h[0]), plumbing.NewHashReference("refs/tags/u", h[2])},
+		}
+		irCanon := func(refs []*plumbing.Reference) string {
+			var out []string
+			for _, r := range refs {
+				out = append(out, r.Name().String()+"="+r.Hash().String())
+			}
+			return "refs:" + strings.Join(out, " ")
+		}
+		for i, refs := range irSets {
+			v := &packp.InfoRefs{References: refs}
+			want := irCanon(refs)
+			e.rtx("InfoRefs", next(), func() string { return format + " " + want }, v.Encode, func(r io.Reader) (string, error) {
+				var d packp.InfoRefs
+				if err := d.Decode(r); err != nil {
+					return "", err
+				}
+				return irCanon(d.References), nil
+			}, want, fmt.Sprintf("%d %s", i, format), false)
 		}
 	}
 
@@ -813,6 +1043,8 @@ func c35GitSide(e *c35Env) {
 		deepen  int
 		filter  packp.Filter
 		shallow []int
+		since   int64    // deepen-since (commit k has time 1700000000 + 1000 k)
+		not     []string // deepen-not
 	}
 	var ulCases []ulCase
 	for _, f := range []string{"sha1", "sha256"} {
@@ -824,6 +1056,17 @@ func c35GitSide(e *c35Env) {
 				ulCases = append(ulCases, ulCase{format: f, wants: w, caps: append([]string{"shallow"}, cs...), deepen: 1}, ulCase{format: f, wants: w, caps: append([]string{"shallow"}, cs...), deepen: 2, shallow: []int{1}})
 			}
 			ulCases = append(ulCases, ulCase{format: f, wants: w, caps: []string{"filter"}, filter: packp.FilterBlobNone()})
+			ulCases = append(ulCases, ulCase{format: f, wants: w, caps: []string{"filter"}, filter: packp.FilterCombine(packp.FilterBlobLimit(1, packp.BlobLimitPrefixKibi), packp.FilterTreeDepth(1))})
+			// the rev-list style depth requests (never combined with deepen <n>)
+			if len(w) == 1 {
+				top := w[0]
+				ulCases = append(ulCases, ulCase{format: f, wants: w, caps: []string{"shallow", "deepen-since"}, since: 1700000000 + int64(top)*1000 - 500})
+				if top > 1 {
+					ulCases = append(ulCases,
+						ulCase{format: f, wants: w, caps: []string{"shallow", "deepen-not"}, not: []string{"refs/heads/old"}},
+						ulCase{format: f, wants: w, caps: []string{"shallow", "deepen-since", "deepen-not", "multi_ack_detailed"}, since: 1700000500, not: []string{"refs/heads/old"}})
+				}
+			}
 		}
 	}
 	c.Bound("upload_requests_sent_to_git_upload_pack", len(ulCases))
@@ -848,6 +1091,10 @@ func c35GitSide(e *c35Env) {
 			req.Shallows = append(req.Shallows, id(s))
 		}
 		req.Depth.Deepen = uc.deepen
+		if uc.since != 0 {
+			req.Depth.DeepenSince = time.Unix(uc.since, 0)
+		}
+		req.Depth.DeepenNot = uc.not
 		hv := &packp.UploadHaves{Done: true}
 		for _, k := range uc.haves {
 			hv.Haves = append(hv.Haves, id(k))
@@ -862,12 +1109,44 @@ func c35GitSide(e *c35Env) {
 		r := rp.g.C("pack.threads=1").RunIn(buf.Bytes(), "upload-pack", "--stateless-rpc", rp.dir)
 		c.Eval()
 		descr := fmt.Sprintf("%s wants=%v haves=%v caps=%v deepen=%d shallow=%v filter=%q", uc.format, uc.wants, uc.haves, uc.caps, uc.deepen, uc.shallow, uc.filter)
+		if uc.since != 0 || len(uc.not) > 0 {
+			descr += fmt.Sprintf(" deepen-since=%d deepen-not=%v", uc.since, uc.not)
+		}
 		bad := ""
 		out := r.Out
 		switch {
 		case !r.OK() || bytes.Contains(r.Err, []byte("fatal")):
 			bad = "git-error (" + c53Outcome(fmt.Errorf("%s", firstLine(r.Err))) + ")"
 		default:
+			// deepen-since / deepen-not: the boundary on the linear history is the oldest
+			// commit that is recent enough and not reachable from refs/heads/old (= c1)
+			if uc.since != 0 || len(uc.not) > 0 {
+				var su packp.ShallowUpdate
+				if err := su.Decode(bytes.NewReader(out)); err != nil {
+					bad = "shallow section unreadable"
+				} else {
+					top := 0
+					for _, w := range uc.wants {
+						top = max(top, w)
+					}
+					lowest := -1
+					for k := top; k >= 0; k-- {
+						if (uc.since != 0 && 1700000000+int64(k)*1000 < uc.since) || (len(uc.not) > 0 && k <= 1) {
+							break
+						}
+						lowest = k
+					}
+					want := ""
+					if lowest > 0 {
+						want = rp.commits[lowest]
+					}
+					if lowest < 0 {
+						bad = "" // nothing qualifies: git fails the request; not a case we generate
+					} else if c35HashList(su.Shallows) != want {
+						bad = fmt.Sprintf("shallow boundary %s instead of %s", c35HashList(su.Shallows), want)
+					}
+				}
+			}
 			// expected shallow lines for a single want on the linear history
 			if uc.deepen > 0 {
 				var su packp.ShallowUpdate
@@ -889,7 +1168,7 @@ func c35GitSide(e *c35Env) {
 				bad = "no pack in the response"
 			}
 			// the pack must hold exactly the commits reachable from the wants and not from the haves
-			if bad == "" && uc.deepen == 0 && uc.filter == "" && !strings.Contains(strings.Join(uc.caps, " "), "side-band") && !strings.Contains(strings.Join(uc.caps, " "), "include-tag") {
+			if bad == "" && uc.deepen == 0 && uc.since == 0 && len(uc.not) == 0 && uc.filter == "" && !strings.Contains(strings.Join(uc.caps, " "), "side-band") && !strings.Contains(strings.Join(uc.caps, " "), "include-tag") {
 				args := []string{"rev-list", "--objects", "--count"}
 				for _, w := range uc.wants {
 					args = append(args, rp.commits[w])
